@@ -549,7 +549,7 @@ Definition not_fs_stop (c : cp) : bool := negb (mem c fs_stop).
 Fixpoint fs_non_spaces (fuel : nat) (double : bool) (start : mark) (chunks : str) : M str :=
   match fuel with O => nofuel | S f =>
     n <- with_fuel (fun f' => span f' not_fs_stop 0) ;;
-    p <- prefix n ;; forward n ;;;
+    p <- (if Nat.eqb n 0 then ret [] else (p0 <- prefix n ;; forward n ;;; ret p0)) ;;      (* `if length != 0:` - no reader call for an empty run *)
     let chunks := chunks ++ p in
     ch <- peek 0 ;;
     c1 <- (if negb double && N.eqb ch 39 then peek 1 else ret NUL) ;;
